@@ -211,9 +211,15 @@ pub fn entry_summary(subject: K, kind: K, e: &[u8], subn: u32, aux: u64) -> Resu
             need(13)?;
             let off = le16(e, 8).unwrap() as u64;
             let n = le16(e, 10).unwrap() as u64;
-            let nul = e[12..].iter().position(|x| *x == 0).ok_or("platform name is not NUL-terminated")? as u64;
-            eq("name length", nul, aux)?;
-            eq("id-mapping array offset @8", off, 12 + nul + 1)?;
+            let name_len = aux & 0xffff_ffff;
+            if aux >> 32 == 0 {
+                // a name without embedded NUL: the terminator is where the string ends
+                let nul = e[12..].iter().position(|x| *x == 0).ok_or("platform name is not NUL-terminated")? as u64;
+                eq("name length", nul, name_len)?;
+            } else if e.get(12 + name_len as usize) != Some(&0) {
+                return Err("platform name is not NUL-terminated".into());
+            }
+            eq("id-mapping array offset @8", off, 12 + name_len + 1)?;
             eq("id-mapping count @10", n, subn as u64)?;
             eq("length @2", le16(e, 2).unwrap() as u64, off + 20 * n)?;
         }
